@@ -95,6 +95,10 @@ class C14(Prop):
             if r.random() < 0.2:
                 uniq.append({"path": "extra.ign", "kind": "file", "lines": [r.choice(PATS) for _ in range(2)]})
                 explicit = ["extra.ign"]
+            # an explicit ignore file that is also one the walk finds by itself (the project's own .gitignore passed with --ignore-file)
+            own = [e["path"] for e in uniq if e["kind"] == "file" and e["path"].split("/")[-1] in IGN and (e["path"] + "/").startswith(pre)]
+            if r.random() < 0.15 and own:
+                explicit = explicit + [r.choice(own)]
             cases.append({"id": i, "origin": origin, "entries": uniq, "watches": watches, "explicit": explicit, "excludes": excludes})
         return cases
 
@@ -134,6 +138,13 @@ class C14(Prop):
                     f"{coq_list([cs(absf(w)) for w in case['explicit']])} {opt(absf(case['excludes']) if case['excludes'] else None)}")
             terms.append(f"eval_discover false {args}")
             terms.append(f"eval_discover true {args}")
+            # the implementation's own result, for the closure check
+            lines_of = {e["path"]: e.get("lines") or [] for e in case["entries"]}
+            resl = []
+            for x in o["ordered"]:
+                pth, ain, _to = x.split("|")
+                resl.append(f"({cs(absf(pth))}, {opt(absf(ain)) if ain != '-' else 'None'}, {coq_list([cs(l) for l in lines_of.get(pth, [])])})")
+            terms.append(f"eval_closed {fst} {cs(absf(case['origin']))} {coq_list([cs(absf(w)) for w in case['watches']])} {coq_list(resl)}")
         res, err = coq_eval("c14", ["Glob.Glob", "Glob.Gitignore", "Ignore.IgnoreFilter", "Gen.Origins_gen", "Discover.Discover", "Run.EvalC14"], terms)
         if err:
             c.errors.append("model evaluation failed: " + err[-800:])
@@ -151,7 +162,8 @@ class C14(Prop):
                     parts[1] = "" if parts[1] == root else (parts[1][len(root) + 1:] if parts[1].startswith(root + "/") else parts[1])
                     outl.append("|".join(parts))
                 return sorted(outl)
-            m1, m2 = relz(res[2 * k]), relz(res[2 * k + 1])
+            m1, m2 = relz(res[3 * k]), relz(res[3 * k + 1])
+            closed = [x for x in res[3 * k + 2].strip('[]').split(',') if x]
             impl = sorted(o["files"])
             c.count(f"found={min(len(impl), 6)}")
             ign_dirs = {e["path"].rsplit("/", 1)[0] if "/" in e["path"] else "" for e in case["entries"]
@@ -167,6 +179,16 @@ class C14(Prop):
             if m1 != m2:
                 c.failing.append({"case": case, "impl": impl, "expected": [m1, m2],
                                   "clause": "C14_order_independent: result depends on directory listing order"})
+            # the result is closed under the filter it makes: nothing missing from a directory the returned files do not ignore,
+            # nothing from a directory they do (evaluated in Coq by Run/EvalC14.v eval_closed on the implementation's list)
+            for x in closed:
+                kind, pth = x.split(":", 1)
+                pth = pth[len(root) + 1:] if pth.startswith(root + "/") else pth
+                c.failing.append({"case": case, "impl": impl, "detail": pth,
+                                  "clause": ("C14_complete: a non-empty ignore file in a directory that is reachable without entering an ignored or VCS "
+                                             "metadata directory was not returned (tagged with its directory)") if kind == "missing" else
+                                            "C14_nothing_from_pruned: a returned file lies in a directory that the returned ignore files above it ignore, "
+                                            "a VCS metadata directory, or a directory unrelated to the watch list"})
             # monitors on the implementation's result
             ents = {e["path"]: e for e in case["entries"]}
             for x in impl:
@@ -175,6 +197,8 @@ class C14(Prop):
                 if not e or e["kind"] != "file":
                     c.failing.append({"case": case, "impl": x, "clause": "C14: returned something that is not a non-empty regular file"})
                 name = p.split("/")[-1]
+                if p in case["explicit"] and ain == case["origin"] and to == "-":
+                    continue        # the explicit entry (applies in the origin by definition), not the walk's
                 if name in IGN and ain != "-":
                     want_dir = p.rsplit("/", 1)[0] if "/" in p else ""
                     if ain != want_dir:
